@@ -1262,6 +1262,11 @@ func main() {
 			do("neg", alphaLE[i])
 			if alpha[i].Sign() != 0 {
 				do("inv", alphaLE[i])
+				// the alphabet is closed under inversion: also the scalar whose INVERSE is this element
+				// (results with many leading zero bytes: 1, 2, 3, 8, every 2^k)
+				if inv := new(big.Int).ModInverse(alpha[i], bigL); inv != nil {
+					do("inv", edref.LE(inv, 32))
+				}
 			}
 			cnt.flush(r, nil)
 		})
@@ -1392,7 +1397,7 @@ func main() {
 		r.Sample(map[string]any{"kind": "point", "op": "double", "a_hex": hx(pscLE[len(psc)/2]), "b_hex": hx(pscLE[len(psc)-1]), "p_hex": hx(pts[3])})
 	})
 
-	r.SetRule("(a) seeds x message lengths x message kinds; (b) every entropy script with <= bound deviations (read index x every byte position k x {short, EOF, ErrUnexpectedEOF, custom error}) per entropy label, plus the nil reader; (c) A-alphabet x R-alphabet x S-alphabet per (honest key, message), every single-bit flip of the honest (key, message, signature), six signature lengths; (d) MultiplyAdd on all ordered triples, Add/Subtract/Multiply on all ordered pairs, Negate/ModInverse on all elements of the scalar alphabet, the four setters on the raw 32/64-byte alphabets, ScalarBaseMult/ScalarMult/VarTimeDoubleScalarBaseMult on point-scalar alphabet (x point alphabet (x point-scalar alphabet)), Add/Subtract on all point pairs. Alphabets are de-duplicated, so cases are distinct by construction. Non-trivial: verify cases where A decodes, the signature has 64 bytes and S < L (only the group equation decides); fault scripts with >= 1 deviation; every sign and arithmetic case")
+	r.SetRule("(a) seeds x message lengths x message kinds; (b) every entropy script with <= bound deviations (read index x every byte position k x {short, EOF, ErrUnexpectedEOF, custom error}) per entropy label, plus the nil reader; (c) A-alphabet x R-alphabet x S-alphabet per (honest key, message), every single-bit flip of the honest (key, message, signature), six signature lengths; (d) MultiplyAdd on all ordered triples, Add/Subtract/Multiply on all ordered pairs, Negate/ModInverse on all elements of the scalar alphabet (ModInverse also on the inverse of every element), the four setters on the raw 32/64-byte alphabets, ScalarBaseMult/ScalarMult/VarTimeDoubleScalarBaseMult on point-scalar alphabet (x point alphabet (x point-scalar alphabet)), Add/Subtract on all point pairs. Alphabets are de-duplicated, so cases are distinct by construction. Non-trivial: verify cases where A decodes, the signature has 64 bytes and S < L (only the group equation decides); fault scripts with >= 1 deviation; every sign and arithmetic case")
 	r.Assume("seeds, messages, scalars and points come from fixed alphabets of representatives (one per shortcut visible in the source: limb boundaries, the band [2^252, L), radix-16 and NAF window boundaries, small-order and non-canonical encodings), not from the full spaces; field arithmetic is reached only through the point operations on these operands",
 		"crypto/ed25519 of the Go toolchain in use (go1.23.5) is the differential reference for derive/sign/verify/GenerateKey; math/big and the 200-line affine curve in checks/edref are the references for the arithmetic",
 		"scalars handed to the Scalar/Point operations are reduced (< L), as every constructor of the package guarantees",
